@@ -57,6 +57,17 @@ def _argument_to_json_like(arg, depth=0):
     return arg
 
 
+def _type_exact(value):
+    """Pair each (nested) argument value with its type, so that e.g. `1`, `1.0` and `True`
+    (equal in Python, but not interchangeable as range bounds or in integer arithmetic) are
+    told apart when conditions are compared."""
+    if isinstance(value, (list, tuple)):
+        return (type(value), [_type_exact(i) for i in value])
+    elif isinstance(value, dict):
+        return (type(value), {k: _type_exact(v) for k, v in value.items()})
+    return (type(value), value)
+
+
 class PreparedConditionCallable:
     def __init__(self, func, *args, **kwargs):
         self._func = func
@@ -661,8 +672,8 @@ class Condition(ConditionLike):
         """Return data used in __eq__"""
         return (
             self.callable.name,
-            self.callable.args,
-            self.callable.kwargs,
+            _type_exact(self.callable.args),
+            _type_exact(self.callable.kwargs),
         )
 
     def _filter(self, data, data_has_paths=False, source_data=None):
